@@ -55,6 +55,11 @@ def consts_of(fn):
 
 
 def run(ctx):
+    _run(ctx)
+    printers_agree(ctx)
+
+
+def _run(ctx):
     db = ctx.db
     ctx.explanation = (
         "Decides structurally: no unreviewed panic source in the identifier parsers (every source reachable from the FromStr/"
@@ -107,3 +112,21 @@ def run(ctx):
     if sd and sp:
         ctx.check("req:Signature:multibase", "base:Base58Btc" in consts_of(sd) and bool(rules.call_blocks(sp, r"^multibase::decode$")),
                   "Signature is printed as Base58btc multibase and parsed with multibase::decode", rules.where(sd), fn=sd)
+
+
+def printers_agree(ctx):
+    """"Printing always uses the canonical form": every printer of a repository id — Display, Serialize and the SQL bind,
+    which is the text rows are keyed and looked up by — goes through `RepoId::urn()`.  A printer that uses another
+    rendering (the bare multibase string) gives one id two texts; the parser accepts both, the database does not."""
+    db = ctx.db
+    import re as _re
+    fns = [f for f in db.all_fns() if _re.search(
+        r"^<&?radicle::identity::doc::id::RepoId as (core::fmt::Display|serde::ser::Serialize|sqlite::statement::BindableWithIndex)>::", f["key"])]
+    ctx.floor("printers:RepoId", len(fns), 3, "printers of RepoId (Display, Serialize, SQL bind)")
+    for f in fns:
+        names = [(c.get("n") or c.get("dn") or "") for bb, t, c in db.calls(f)]
+        urn = any(n.endswith("RepoId::urn") or n.endswith("RepoId as core::fmt::Display>::fmt") or n.endswith("ToString>::to_string") for n in names)
+        other = [n for n in names if _re.search(r"RepoId::canonical$|multibase::encode$", n)]
+        ctx.check("sib:printers:RepoId:%s" % cfg.short(f["key"]), urn and not other,
+                  "%s prints the repository id in its canonical URN form (RepoId::urn), like the other printers%s" % (
+                      cfg.short(f["key"]), (" — it uses %s" % cfg.short(other[0])) if other else ""), rules.where(f), fn=f)
